@@ -27,9 +27,11 @@ ATTRS = {
     'f': (6, 'bool', True), 'g': (7, 'bool', False),
 }
 # attribute paths of the join schema (tools/c01_join.py, coq/Model/C01Join.v): P as above + group -> G -> dept -> D
+# p.group.id / p.group.dept.id are the primary keys G.id / D.id read from the foreign key column (pk-only optimisation): the AttrMonad's
+# `nullable` is the one of the primary key attribute (False) although the reference is Optional
 JOIN_ATTRS = {
-    'group.id': (8, 'int', True),
-    'group.number': (11, 'int', False), 'group.title': (12, 'str', True), 'group.dept.id': (13, 'int', True), 'group.level': (14, 'int', True),
+    'group.id': (8, 'int', False),
+    'group.number': (11, 'int', False), 'group.title': (12, 'str', True), 'group.dept.id': (13, 'int', False), 'group.level': (14, 'int', True),
     'group.dept.name': (21, 'str', False), 'group.dept.code': (22, 'int', True), 'group.dept.open': (23, 'bool', False),
 }
 ATTRS.update(JOIN_ATTRS)
